@@ -43,6 +43,7 @@ def atoms(theme):
         _leaf("f", ("j",), (3, 2), c),
         _leaf("g", (), (2, 3), c),
         _leaf("h", ("k", "i"), (1, 2), c),
+        _leaf("hh", ("k", "i"), (2,), c),
     ]
     return A, E
 
@@ -131,6 +132,8 @@ def wrappers(theme, e, rng=None, full=True):
         yield getitem(e, num(shape[0] - 1, shape[0]))
         yield getitem(e, var("gi", ("bint", shape[0])))
         yield getitem(e, _leaf_idx("ig%d" % shape[0], ("k",), shape[0]))
+        if len(bnames) >= 2:      # index tensor over the SAME inputs in a different order
+            yield getitem(e, leaf("ir%d_%s" % (shape[0], "".join(k for k, _ in bnames)), tuple(reversed(bnames)), (), ("int", shape[0])))
         for index in (0, -1, slice(None), slice(1, None), slice(None, None, 2), None, Ellipsis,
                       (Ellipsis, 0), (slice(None), None), (None, Ellipsis)) + (((0, slice(None)), (Ellipsis, slice(0, 1)), (slice(None), -1)) if len(shape) > 1 else ()):
             yield getslice(e, index)
